@@ -1173,12 +1173,36 @@ func genGcSession(rng *rand.Rand, st *Stats) []string {
 			}
 		case r < 81:
 			ops = append(ops, "flush")
-		case r < 89:
+		case r < 86:
 			if rng.Intn(3) == 0 {
 				ops = append(ops, fmt.Sprintf("compact this=0 id=%d adj=%s", rng.Intn(2), pick(rng, "1.5", "1.5", "0.5")))
 			} else {
 				ops = append(ops, fmt.Sprintf("compact pick=%d id=%d adj=%s", rng.Intn(16), rng.Intn(2), pick(rng, "1.5", "1.5", "0")))
 			}
+		case r < 90 && !parked:
+			// the #2286 shape: a rewrite parked inside its scan (or after it), then a delete of some
+			// key, the read mark moved past the tombstone, flush and a compaction, all before the
+			// write-back
+			o := fmt.Sprintf("gcbegin sel=%d", rng.Intn(8))
+			if rng.Intn(3) != 0 {
+				o += fmt.Sprintf(" at=%d", 1+rng.Intn(3))
+			}
+			ops = append(ops, o)
+			write(true)
+			if rng.Intn(2) == 0 {
+				write(true)
+			}
+			ops = append(ops, fmt.Sprintf("begin %d 0 %d", nextID, rtsOf()), fmt.Sprintf("discard %d", nextID))
+			nextID++
+			if managed {
+				disc = cts
+				ops = append(ops, fmt.Sprintf("setdiscard %d", disc))
+			}
+			ops = append(ops, "flush", fmt.Sprintf("compact this=0 id=0 adj=%s", pick(rng, "1.5", "1.5", "0")))
+			if rng.Intn(2) == 0 {
+				ops = append(ops, "gccont")
+			}
+			ops = append(ops, "gcend")
 		case r < 92:
 			if !parked {
 				ops = append(ops, fmt.Sprintf("gc ratio=%s", pick(rng, "0.01", "0.2", "0.5", "0.9")))
